@@ -128,9 +128,9 @@ struct ChunkOut {
 }
 
 /// Plain re-execution: no model, no judges; ids tracked through `get_node_id_at` only.
-pub fn replay_debug_hash(init: Arena<Payload>, path: &[Op]) -> u128 {
+pub fn replay_debug_hash(init: Arena<Payload>, init_cur: Vec<NodeId>, path: &[Op]) -> u128 {
     let mut arena = init;
-    let mut cur: Vec<NodeId> = Vec::new();
+    let mut cur: Vec<NodeId> = init_cur;
     for op in path {
         // payload values: smallest values not carried by live nodes (same rule as the explorer)
         let used: Vec<u8> = arena
@@ -382,14 +382,9 @@ pub fn explore(cfg: &RunCfg, known: &Known) -> Report {
                     let mut valid = true;
                     if cfg.validate_paths {
                         let (root, path) = path_of(recs_ref, *idx);
-                        if let Init::Seed(..) = cfg.inits[root as usize] {
-                            // seeds are replayed from the seed's own arena
-                            let h = replay_debug_hash(cfg.inits[root as usize].state().arena, &path);
-                            valid = h == recs_ref[*idx as usize].dbg;
-                        } else {
-                            let h = replay_debug_hash(cfg.inits[root as usize].state().arena, &path);
-                            valid = h == recs_ref[*idx as usize].dbg;
-                        }
+                        let st0 = cfg.inits[root as usize].state();
+                        let h = replay_debug_hash(st0.arena, st0.cur, &path);
+                        valid = h == recs_ref[*idx as usize].dbg;
                     }
                     (fails, valid, (ctr.pulls, ctr.product_steps, ctr.lockstep))
                 })
